@@ -798,6 +798,11 @@ func genC10(g *G) {
 		for _, oc := range []string{"noevents", "fetcherr", "silent", "gto", "refused"} {
 			g.Emit("handler", h, oc)
 		}
+		if h != "refresh" { // the event reaches a relayer that already has its share
+			for _, oc := range []string{"noevents", "silent", "gto", "refused"} {
+				g.Emit("handler", h, oc+"+key")
+			}
+		}
 		if h == "refresh" {
 			for _, oc := range []string{"emptyhash", "topoerr", "storefail"} {
 				g.Emit("handler", h, oc)
